@@ -356,6 +356,40 @@ def load_known():
         return []
 
 
+def run_known_findings(rep):
+    """genuine defects recorded in known_findings.json (kind `finding`): the witness is run in the profile the entry names; if the crate still
+    fails exactly as recorded a KNOWN-FINDING line is printed and nothing is counted; if it no longer fails that is noted (the entry can then
+    become `fixed`); any other outcome on the witness is a violation like any other.  Returns the KNOWN-FINDING lines."""
+    import subprocess
+    lines = []
+    for e in load_known():
+        if e.get('kind') != 'finding' or e.get('property') != rep.prop:
+            continue
+        try:
+            ops = open(os.path.join(VERIF, e['witness'])).read().strip().split('\n')
+        except Exception as ex:
+            rep.notes.append(f"known finding {e.get('id')}: witness unreadable: {ex}")
+            continue
+        prof = e.get('match', {}).get('profile', 'checked')
+        try:
+            r = subprocess.run([RUST[prof]], input='\n'.join(ops) + '\n', capture_output=True, text=True, timeout=600)
+            outs = r.stdout.strip().split('\n')
+        except subprocess.TimeoutExpired:
+            outs = ['timeout']
+        rep.evaluations += len(ops)
+        rep.count(f"known finding {e.get('id')} witness")
+        rx = re.compile(e.get('match', {}).get('output_regex', '^$'))
+        if outs and all(rx.match(o or '') for o in outs):
+            lines.append(e['line'])
+            rep.notes.append(f"known finding {e.get('id')} still present: {outs[0][:80]}")
+        elif outs and all(not (o or '').startswith(('panic', 'timeout', 'harness:')) for o in outs):
+            rep.notes.append(f"known finding {e.get('id')}: the witness no longer fails ({outs[0][:40]}...)")
+        else:
+            rep.violation('implementation-vs-oracle', ops, {'profile': prof, 'tag': f"known finding {e.get('id')} witness fails differently", 'output': (outs[0] or '')[:200],
+                          'oracle': 'public API call panicked or crashed (not the recorded failure)'}, True)
+    return lines
+
+
 def run_regressions(rep):
     """inputs that once exposed a seeded defect (corpus/regressions.json, checks/mk_regress.py), with the unchanged crate's answer: replayed on
     every run so that they are met whatever the seed of the random families is"""
@@ -384,8 +418,12 @@ def run_regressions(rep):
 
 def finish(rep, build, level, coverage_extra, assumptions, n_obligations=None):
     """print verdict lines, write evidence, return exit code"""
+    known_lines = []
     if build is not None and not build.cargo_errs:
         run_regressions(rep)
+        known_lines = run_known_findings(rep)
+    for kl in known_lines:
+        print(kl)
     broken = build.broken if build else []
     if not MODEL_AVAILABLE:
         rep.notes.append('the model driver does not build against the regenerated Gen files: correspondence not run (model stream replaced by the '
